@@ -257,6 +257,11 @@ class QMI_Context:
             raise QMI_UsageException("Invalid context name {!r}".format(name))
 
         self.name = name
+
+        # Random identifier of this context instance. Context names need not be unique among clients (several scripts
+        # may use the same name), so generated lock tokens include this identifier to keep them unique.
+        self._instance_id = os.urandom(6).hex()
+
         self._unique_counters: dict[str, int] = {}
         self._unique_counters_lock = threading.Lock()
         self._rpc_object_map: dict[str, RpcObjectManager | None] = {}
@@ -758,11 +763,15 @@ class QMI_Context:
         return QMI_MessageHandlerAddress(self.name, prefix + str(nr))
 
     def make_unique_token(self, prefix: str = "$lock_") -> QMI_LockTokenDescriptor:
-        """Generate and return a unique token descriptor."""
+        """Generate and return a unique token descriptor.
+
+        The token differs from any token generated by this or by another context instance, including
+        instances that have the same context name.
+        """
         with self._unique_counters_lock:
             nr = self._unique_counters.get(prefix, 0) + 1
             self._unique_counters[prefix] = nr
-        return QMI_LockTokenDescriptor(self.name, prefix + str(nr))
+        return QMI_LockTokenDescriptor(self.name, prefix + self._instance_id + "_" + str(nr))
 
     def make_rpc_object(
         self,
